@@ -590,4 +590,438 @@ Proof.
       apply in_map_iff in Hi. destruct Hi as (s0 & Hs0 & Hin0). rewrite <- Hs0. auto.
 Qed.
 
+(* ------------------------------------------------------------------ the expected inspector: exact abort point *)
+
+Definition nonexp (expected : option str) (l : list slot) : Prop :=
+  Forall (fun x => name_is (s_name x) expected = false) l.
+
+Lemma pc_std_nonexp expected a : nonexp expected a -> forall idx chunk,
+  exists a' tra, pc_std expected idx a chunk = (a', tra, None) /\ nonexp expected a' /\ length a' = length a.
+Proof.
+  induction 1 as [|s0 rest Hs0 Hrest IH]; intros idx chunk; cbn [pc_std].
+  - exists [], []. repeat split. constructor.
+  - destruct (s_err s0) eqn:Herr.
+    + destruct (IH (S idx) chunk) as (a' & tra & Hp & Hn & Hl). rewrite Hp. exists (s0 :: a'), tra.
+      repeat split; [constructor; assumption | cbn; now rewrite Hl].
+    + destruct (feed_slot expected idx s0 chunk) as [[s' ev] r] eqn:Hf.
+      destruct (feed_slot_spec _ _ _ _ _ _ _ Hf) as (Hn & _ & _ & _ & _ & _ & Hne & _ & Hnone).
+      assert (r = None) as ->.
+      { destruct (ev_exn ev) as [e|] eqn:Hx.
+        - now destruct (Hne e eq_refl Hs0).
+        - destruct (Hnone eq_refl) as (_ & Hr). rewrite Hs0 in Hr. exact Hr. }
+      destruct (IH (S idx) chunk) as (a' & tra & Hp & Hnn & Hl). rewrite Hp. exists (s' :: a'), (ev :: tra).
+      repeat split; [constructor; [now rewrite Hn | assumption] | cbn; now rewrite Hl].
+Qed.
+
+Lemma pc_std_app expected a b chunk : forall idx,
+  pc_std expected idx (a ++ b) chunk =
+  let '(a', tra, ra) := pc_std expected idx a chunk in
+  match ra with
+  | Some e => (a' ++ b, tra, Some e)
+  | None => let '(b', trb, rb) := pc_std expected (idx + length a) b chunk in (a' ++ b', tra ++ trb, rb)
+  end.
+Proof.
+  induction a as [|s0 rest IH]; intros idx; cbn [pc_std app length].
+  - rewrite Nat.add_0_r. destruct (pc_std expected idx b chunk) as [[b' trb] rb]. reflexivity.
+  - replace (idx + S (length rest))%nat with (S idx + length rest)%nat by lia.
+    destruct (s_err s0).
+    + rewrite IH. destruct (pc_std expected (S idx) rest chunk) as [[a' tra] ra]. destruct ra; [reflexivity|].
+      destruct (pc_std expected (S idx + length rest) b chunk) as [[b' trb] rb]. reflexivity.
+    + destruct (feed_slot expected idx s0 chunk) as [[s' ev] r]. destruct r; [reflexivity|].
+      rewrite IH. destruct (pc_std expected (S idx) rest chunk) as [[a' tra] ra]. destruct ra; [reflexivity|].
+      destruct (pc_std expected (S idx + length rest) b chunk) as [[b' trb] rb]. reflexivity.
+Qed.
+
+(* one call on a wrapper in which exactly one inspector, not errored, carries the expected name *)
+Lemma w_step_unique w n pre s post c :
+  w_expected w = Some n -> w_slots w = pre ++ s :: post -> s_name s = n -> s_err s = false ->
+  nonexp (Some n) pre -> nonexp (Some n) post ->
+  exists w1 tr1 pre1 post1,
+    let s1 := {| s_name := n; s_insp := fst (eat (s_insp s) c); s_err := false |} in
+    let r := match snd (eat (s_insp s) c) with
+             | Some e => Some e
+             | None => if complete (s_insp s1) && negb (fmatch (s_insp s1)) then Some ImageFormatError else None
+             end in
+    w_step w (InChunk c) = (w1, tr1, match r with Some e => OutExn e | None => OutChunk c end) /\
+    w_expected w1 = Some n /\ w_finished w1 = w_finished w /\ w_slots w1 = pre1 ++ s1 :: post1 /\
+    nonexp (Some n) pre1 /\ nonexp (Some n) post1 /\ length pre1 = length pre.
+Proof.
+  intros He Hsl Hn Herr Hpre Hpost. cbn [Wrap.w_step]. rewrite process_chunk_std. rewrite He, Hsl.
+  rewrite pc_std_app. destruct (pc_std_nonexp _ _ Hpre 0%nat c) as (pre1 & tra & Hp & Hnp & Hlp). rewrite Hp.
+  cbn [pc_std]. rewrite Herr. unfold feed_slot.
+  assert (Hni : name_is (s_name s) (Some n) = true) by (cbn; rewrite Hn; apply beq_refl).
+  rewrite Hni. destruct (eat (s_insp s) c) as [i' oe] eqn:Heat. cbn [fst snd s_insp].
+  destruct oe as [e|].
+  - exists (with_slots I w (pre1 ++ {| s_name := s_name s; s_insp := i'; s_err := s_err s |} :: post)), (tra ++ [{| ev_idx := 0 + length pre; ev_name := s_name s; ev_chunk := c; ev_exn := Some e |}]), pre1, post.
+    cbn. rewrite Hn, Herr. repeat split; auto.
+  - cbn [andb]. destruct (complete i' && negb (fmatch i')) eqn:Hc.
+    + exists (with_slots I w (pre1 ++ {| s_name := s_name s; s_insp := i'; s_err := s_err s |} :: post)), (tra ++ [{| ev_idx := 0 + length pre; ev_name := s_name s; ev_chunk := c; ev_exn := None |}]), pre1, post.
+      cbn. rewrite Hn, Herr. repeat split; auto.
+    + destruct (pc_std_nonexp _ _ Hpost (S (0 + length pre)) c) as (post1 & trb & Hq & Hnq & Hlq). rewrite Hq.
+      exists (with_slots I w (pre1 ++ {| s_name := s_name s; s_insp := i'; s_err := s_err s |} :: post1)), (tra ++ {| ev_idx := 0 + length pre; ev_name := s_name s; ev_chunk := c; ev_exn := None |} :: trb), pre1, post1.
+      cbn. rewrite Hn, Herr. repeat split; auto.
+Qed.
+
+Lemma w_run_stop_cons w inp rest :
+  w_run_stop w (inp :: rest) =
+  let '(w1, tr1, o) := w_step w inp in
+  match o with
+  | OutExn e => (w1, tr1, [], Some (e, taken inp), rest)
+  | OutChunk c => let '(w2, tr2, cs, stop, unused) := w_run_stop w1 rest in (w2, tr1 ++ tr2, c :: cs, stop, unused)
+  | OutNone => let '(w2, tr2, cs, stop, unused) := w_run_stop w1 rest in (w2, tr1 ++ tr2, cs, stop, unused)
+  end.
+Proof. reflexivity. Qed.
+
+(* The reader feeds chunks cs (then whatever [tl] says) and stops at the first exception.
+   [first_abort] of the expected inspector alone decides what happens, whatever the other
+   inspectors do. *)
+Lemma expected_abort_core n : forall cs w pre s post tl,
+  w_expected w = Some n -> w_slots w = pre ++ s :: post -> s_name s = n -> s_err s = false ->
+  nonexp (Some n) pre -> nonexp (Some n) post ->
+  match first_abort I eat complete fmatch (s_insp s) cs with
+  | Some (j, a) => (j < length cs)%nat /\ exists w' tr,
+      w_run_stop w (map InChunk cs ++ tl) =
+        (w', tr, firstn j cs, Some (abort_exn a, Some (nth j cs [])), map InChunk (skipn (S j) cs) ++ tl)
+  | None => exists w1 tr1 pre1 s1 post1,
+      w_expected w1 = Some n /\ w_finished w1 = w_finished w /\ w_slots w1 = pre1 ++ s1 :: post1 /\
+      s_name s1 = n /\ s_err s1 = false /\ nonexp (Some n) pre1 /\ nonexp (Some n) post1 /\ length pre1 = length pre /\
+      w_run_stop w (map InChunk cs ++ tl) =
+        let '(w2, tr2, d2, stop2, un2) := w_run_stop w1 tl in (w2, tr1 ++ tr2, cs ++ d2, stop2, un2)
+  end.
+Proof.
+  induction cs as [|c cs IH]; intros w pre s post tl He Hsl Hn Herr Hpre Hpost.
+  - cbn [first_abort map app]. exists w, [], pre, s, post. repeat split; auto.
+    destruct (w_run_stop w tl) as [[[[w2 tr2] d2] stop2] un2]. reflexivity.
+  - cbn [first_abort map app]. rewrite w_run_stop_cons.
+    destruct (w_step_unique w n pre s post c He Hsl Hn Herr Hpre Hpost)
+      as (w1 & tr1 & pre1 & post1 & Hstep & He1 & Hf1 & Hsl1 & Hp1 & Hq1 & Hl1).
+    cbn zeta in Hstep. rewrite Hstep. clear Hstep.
+    destruct (eat (s_insp s) c) as [i' oe] eqn:Heat. cbn [fst snd s_insp] in *.
+    destruct oe as [e|].
+    + split; [cbn; lia|]. exists w1, tr1. reflexivity.
+    + destruct (complete i' && negb (fmatch i')) eqn:Hc.
+      * split; [cbn; lia|]. exists w1, tr1. reflexivity.
+      * specialize (IH w1 pre1 {| s_name := n; s_insp := i'; s_err := false |} post1 tl He1 Hsl1 eq_refl eq_refl Hp1 Hq1).
+        cbn [s_insp] in IH.
+        destruct (first_abort I eat complete fmatch i' cs) as [[j a]|].
+        -- destruct IH as (Hj & w' & tr & Hrun). split; [cbn; lia|]. rewrite Hrun. exists w', (tr1 ++ tr). reflexivity.
+        -- destruct IH as (w2 & tr2 & pre2 & s2 & post2 & H1 & H2 & H3 & H4 & H5 & H6 & H7 & H8 & Hrun).
+           exists w2, (tr1 ++ tr2), pre2, s2, post2. repeat split; auto; try congruence.
+           rewrite Hrun. destruct (w_run_stop w2 tl) as [[[[w3 tr3] d3] stop3] un3]. now rewrite app_assoc.
+Qed.
+
+Notation first_abort := (first_abort I eat complete fmatch).
+
+(* expected_fault_propagates_at_that_chunk / expected_complete_mismatch_aborts_at_that_chunk,
+   in one statement: a reader that stops at the first exception gets exactly the chunks
+   before the first chunk at which the expected inspector fails or is complete without
+   matching, then that exception; the failing call has taken that chunk (and nothing more)
+   from the source; without such a chunk everything is delivered. *)
+Theorem expected_abort_exact w n pre s post cs :
+  w_expected w = Some n -> w_slots w = pre ++ s :: post -> s_name s = n -> s_err s = false ->
+  nonexp (Some n) pre -> nonexp (Some n) post ->
+  exists w' tr, w_run_stop w (map InChunk cs) =
+    match first_abort (s_insp s) cs with
+    | Some (j, a) => (w', tr, firstn j cs, Some (abort_exn a, Some (nth j cs [])), map InChunk (skipn (S j) cs))
+    | None => (w', tr, cs, None, [])
+    end.
+Proof.
+  intros He Hsl Hn Herr Hpre Hpost.
+  pose proof (expected_abort_core n cs w pre s post [] He Hsl Hn Herr Hpre Hpost) as H.
+  rewrite !app_nil_r in H. destruct (first_abort (s_insp s) cs) as [[j a]|].
+  - destruct H as (_ & w' & tr & Hr). rewrite app_nil_r in Hr. eauto.
+  - destruct H as (w1 & tr1 & _ & _ & _ & _ & _ & _ & _ & _ & _ & _ & _ & Hr). cbn in Hr.
+    rewrite !app_nil_r in Hr. eauto.
+Qed.
+
+Lemma first_abort_bound i cs j a : first_abort i cs = Some (j, a) -> (j < length cs)%nat.
+Proof.
+  revert i j. induction cs as [|c cs IH]; intros i j; cbn [Wrap.first_abort]; [discriminate|].
+  destruct (eat i c) as [i' oe]. destruct oe.
+  - intros H; inversion H; subst. cbn; lia.
+  - destruct (complete i' && negb (fmatch i')).
+    + intros H; inversion H; subst. cbn; lia.
+    + destruct (first_abort i' cs) as [[k b]|] eqn:Hf; [|discriminate].
+      intros H; inversion H; subst. specialize (IH _ _ Hf). cbn; lia.
+Qed.
+
+(* ------------------------------------------------------------------ file-like sources: read(size) *)
+
+Lemma w_read_open w s n : f_closed s = false ->
+  w_read w s n =
+  let c := f_chunk s n in
+  let '(w', tr, o) := w_step w (InChunk c) in
+  (w', {| f_data := f_data s; f_pos := f_pos s + blen c; f_closed := false |}, tr, InChunk c, o).
+Proof. intros Hc. unfold Wrap.w_read, f_read. rewrite Hc. reflexivity. Qed.
+
+Lemma w_read_closed w s n : f_closed s = true ->
+  w_read w s n = (w, s, [], InSrcErr ValueError, OutExn ValueError).
+Proof. intros Hc. unfold Wrap.w_read, f_read. rewrite Hc. reflexivity. Qed.
+
+(* reads_are_identity for read(size): the bytes delivered (plus the chunk lost in the
+   failing call, if the run ended with an exception) are exactly the bytes of the source
+   between its position before and after; whatever the inspectors do *)
+Theorem reads_are_identity_file : forall sizes w s w' s' tr cs stop,
+  run_reads w s sizes = (w', s', tr, cs, stop) ->
+  let lost := match stop with Some (_, t) => opt_bytes t | None => [] end in
+  f_data s' = f_data s /\
+  f_pos s' = f_pos s + blen (concat cs) + blen lost /\
+  concat cs ++ lost = bsub (f_pos s) (f_pos s') (f_data s).
+Proof.
+  induction sizes as [|n rest IH]; intros w s w' s' tr cs stop; cbn [Wrap.run_reads].
+  - intros H; inversion H; subst. cbn. rewrite bsub_same. repeat split. lia.
+  - destruct (f_closed s) eqn:Hc.
+    + rewrite w_read_closed by assumption. intros H; inversion H; subst. cbn. rewrite bsub_same. repeat split. lia.
+    + rewrite w_read_open by assumption. cbn zeta.
+      destruct (w_step w (InChunk (f_chunk s n))) as [[w1 tr1] o] eqn:Hs.
+      pose proof (w_step_identity _ _ _ _ _ Hs) as Hid.
+      pose proof (f_chunk_is_slice s n) as Hsl.
+      destruct o as [c|e|].
+      * inversion Hid; subst c.
+        destruct (run_reads w1 _ rest) as [[[[w2 s2] tr2] cs2] stop2] eqn:Hr.
+        intros H; inversion H; subst. specialize (IH _ _ _ _ _ _ _ Hr). cbn zeta in IH. cbn [f_data f_pos] in IH.
+        destruct IH as (Hd & Hp & Hcat). cbn zeta. repeat split; [assumption| |].
+        -- cbn [concat]. rewrite blen_app. lia.
+        -- cbn [concat]. rewrite <- app_assoc, Hcat. rewrite Hsl at 1.
+           apply bsub_app; lia.
+      * intros H; inversion H; subst. cbn. repeat split; [lia|]. exact Hsl.
+      * discriminate.
+Qed.
+
+(* the reader's run is the core run on the chunks the file hands out *)
+Lemma run_reads_stop : forall sizes w s, f_closed s = false ->
+  forall w' s' tr cs stop, run_reads w s sizes = (w', s', tr, cs, stop) ->
+  exists unused, w_run_stop w (map InChunk (f_chunks s sizes)) = (w', tr, cs, stop, unused).
+Proof.
+  induction sizes as [|n rest IH]; intros w s Hc w' s' tr cs stop; cbn [Wrap.run_reads f_chunks map].
+  - intros H; inversion H; subst. exists []. reflexivity.
+  - rewrite w_read_open by assumption. cbn zeta. rewrite w_run_stop_cons.
+    destruct (w_step w (InChunk (f_chunk s n))) as [[w1 tr1] o] eqn:Hs.
+    destruct o as [c|e|].
+    + destruct (run_reads w1 _ rest) as [[[[w2 s2] tr2] cs2] stop2] eqn:Hr.
+      intros H; inversion H; subst. eapply IH in Hr; [|reflexivity]. destruct Hr as (un & Hu). rewrite Hu. eauto.
+    + intros H; inversion H; subst. eauto.
+    + apply w_step_identity in Hs. discriminate.
+Qed.
+
+(* with an expected format, on a file: delivered bytes, exception and final source position *)
+Theorem expected_abort_exact_file w s sizes n pre sl post :
+  f_closed s = false ->
+  w_expected w = Some n -> w_slots w = pre ++ sl :: post -> s_name sl = n -> s_err sl = false ->
+  nonexp (Some n) pre -> nonexp (Some n) post ->
+  forall w' s' tr delivered stop, run_reads w s sizes = (w', s', tr, delivered, stop) ->
+  let cs := f_chunks s sizes in
+  match first_abort (s_insp sl) cs with
+  | Some (j, a) =>
+    delivered = firstn j cs /\ stop = Some (abort_exn a, Some (nth j cs [])) /\
+    f_pos s' = f_pos s + blen (concat (firstn (S j) cs))
+  | None => delivered = cs /\ stop = None /\ f_pos s' = f_pos s + blen (concat cs)
+  end.
+Proof.
+  intros Hc He Hsl Hn Herr Hpre Hpost w' s' tr delivered stop Hrun cs.
+  destruct (run_reads_stop _ _ _ Hc _ _ _ _ _ Hrun) as (un & Hstop).
+  destruct (expected_abort_exact w n pre sl post cs He Hsl Hn Herr Hpre Hpost) as (w2 & tr2 & Hex).
+  fold cs in Hstop. rewrite Hstop in Hex.
+  destruct (reads_are_identity_file _ _ _ _ _ _ _ _ Hrun) as (_ & Hpos & _).
+  destruct (first_abort (s_insp sl) cs) as [[j a]|] eqn:Hfa.
+  - inversion Hex; subst. repeat split. rewrite Hpos. cbn [opt_bytes].
+    pose proof (first_abort_bound _ _ _ _ Hfa) as Hj.
+    assert (Hf : firstn (S j) cs = firstn j cs ++ [nth j cs []]).
+    { clear - Hj. revert j Hj. induction cs as [|c cs IH]; intros j Hj; [cbn in Hj; lia|].
+      destruct j; [reflexivity|]. cbn [firstn nth app]. f_equal. apply IH. cbn in Hj. lia. }
+    rewrite Hf, concat_app, blen_app. cbn [concat]. rewrite app_nil_r. lia.
+  - inversion Hex; subst. repeat split. rewrite Hpos. cbn. lia.
+Qed.
+
+(* ------------------------------------------------------------------ iterator sources: next() *)
+
+Lemma w_next_nil w s : i_chunks s = [] -> w_next w s = (finish_all w, s, [], InStop, OutExn StopIteration).
+Proof. intros Hc. unfold Wrap.w_next, i_next. rewrite Hc. reflexivity. Qed.
+
+Lemma w_next_cons w s c r : i_chunks s = c :: r ->
+  w_next w s = let '(w', tr, o) := w_step w (InChunk c) in
+               (w', {| i_chunks := r; i_has_close := i_has_close s |}, tr, InChunk c, o).
+Proof. intros Hc. unfold Wrap.w_next, i_next. rewrite Hc. reflexivity. Qed.
+
+(* reads_are_identity for iteration: chunks delivered, then the chunk lost in a failing
+   call (if any), then what is left in the source, are the source's chunks in order *)
+Theorem reads_are_identity_iter : forall fuel w s w' s' tr cs stop,
+  run_iter fuel w s = (w', s', tr, cs, stop) ->
+  i_chunks s = cs ++ (match stop with Some (_, Some c) => [c] | _ => [] end) ++ i_chunks s'.
+Proof.
+  induction fuel as [|k IH]; intros w s w' s' tr cs stop; cbn [Wrap.run_iter].
+  - intros H; inversion H; subst. reflexivity.
+  - destruct (i_chunks s) as [|c r] eqn:Hc.
+    + rewrite w_next_nil by assumption. intros H; inversion H; subst. cbn. now rewrite Hc.
+    + rewrite (w_next_cons _ _ _ _ Hc). destruct (w_step w (InChunk c)) as [[w1 tr1] o] eqn:Hs.
+      pose proof (w_step_identity _ _ _ _ _ Hs) as Hid.
+      destruct o as [c'|e|].
+      * inversion Hid; subst c'.
+        destruct (run_iter k w1 _) as [[[[w2 s2] tr2] cs2] stop2] eqn:Hr.
+        intros H; inversion H; subst. specialize (IH _ _ _ _ _ _ _ Hr). cbn [i_chunks] in IH. rewrite IH. reflexivity.
+      * intros H; inversion H; subst. reflexivity.
+      * discriminate.
+Qed.
+
+(* [for chunk in wrapper] with enough fuel is the core run on the source's chunks followed
+   by StopIteration; it always ends with an exception (StopIteration at the latest) *)
+Lemma run_iter_stop : forall chunks fuel w s, i_chunks s = chunks -> (length chunks < fuel)%nat ->
+  forall w' s' tr cs stop, run_iter fuel w s = (w', s', tr, cs, stop) ->
+  exists unused, w_run_stop w (map InChunk chunks ++ [InStop]) = (w', tr, cs, stop, unused).
+Proof.
+  induction chunks as [|c r IH]; intros fuel w s Hc Hf w' s' tr cs stop.
+  - destruct fuel as [|k]; [cbn in Hf; lia|]. cbn [Wrap.run_iter]. rewrite w_next_nil by assumption.
+    intros H; inversion H; subst. exists []. reflexivity.
+  - destruct fuel as [|k]; [cbn in Hf; lia|]. cbn [Wrap.run_iter map app]. rewrite (w_next_cons _ _ _ _ Hc).
+    rewrite w_run_stop_cons. destruct (w_step w (InChunk c)) as [[w1 tr1] o] eqn:Hs.
+    destruct o as [c'|e|].
+    + destruct (run_iter k w1 _) as [[[[w2 s2] tr2] cs2] stop2] eqn:Hr.
+      intros H; inversion H; subst.
+      eapply IH in Hr; [|reflexivity|cbn in Hf; cbn; lia]. destruct Hr as (un & Hu). rewrite Hu. eauto.
+    + intros H; inversion H; subst. eauto.
+    + apply w_step_identity in Hs. discriminate.
+Qed.
+
+(* finish_on_stop_iteration: when the source is exhausted the call raises StopIteration
+   after finish() has been called on every inspector (errored ones included) *)
+Theorem finish_on_stop_iteration w s : i_chunks s = [] ->
+  exists w', w_next w s = (w', s, [], InStop, OutExn StopIteration) /\ w' = finish_all w /\
+    map (@s_insp I) (w_slots w') = map finish (map (@s_insp I) (w_slots w)) /\ w_finished w' = true.
+Proof.
+  intros Hc. exists (finish_all w). rewrite w_next_nil by assumption.
+  destruct (finish_all_spec w) as (H1 & _ & _ & H4 & _). auto.
+Qed.
+
+(* ... and so does close(), on both kinds of source *)
+Theorem finish_on_close w :
+  (forall s, fst (w_close_f I finish w s) = finish_all w /\ f_closed (snd (w_close_f I finish w s)) = true) /\
+  (forall s, fst (w_close_i I finish w s) = finish_all w /\
+             (i_has_close s = true -> i_chunks (snd (w_close_i I finish w s)) = [])) /\
+  map (@s_insp I) (w_slots (finish_all w)) = map finish (map (@s_insp I) (w_slots w)) /\
+  w_finished (finish_all w) = true.
+Proof.
+  destruct (finish_all_spec w) as (H1 & _ & _ & H4 & _). repeat split; auto.
+  unfold w_close_i, i_close. cbn. intros ->. reflexivity.
+Qed.
+
+Lemma run_iter_S k w s :
+  run_iter (S k) w s =
+  let '(w1, s1, tr1, inp, o) := w_next w s in
+  match o with
+  | OutChunk c => let '(w2, s2, tr2, cs, stop) := run_iter k w1 s1 in (w2, s2, tr1 ++ tr2, c :: cs, stop)
+  | OutExn e => (w1, s1, tr1, [], Some (e, taken inp))
+  | OutNone => (w1, s1, tr1, [], None)
+  end.
+Proof. reflexivity. Qed.
+
+(* a complete iteration: either it aborts at a chunk, or it delivers every chunk, ends
+   with StopIteration and leaves every inspector finished *)
+Theorem iteration_complete : forall w s w' s' tr cs stop,
+  run_iter (S (length (i_chunks s))) w s = (w', s', tr, cs, stop) ->
+  match stop with
+  | None => False
+  | Some (e, None) => e = StopIteration /\ cs = i_chunks s /\ i_chunks s' = [] /\
+                      w_finished w' = true /\ exists w0, w' = finish_all w0
+  | Some (e, Some c) => i_chunks s = cs ++ c :: i_chunks s'
+  end.
+Proof.
+  assert (Hgen : forall chunks w s, i_chunks s = chunks -> forall w' s' tr cs stop,
+    run_iter (S (length chunks)) w s = (w', s', tr, cs, stop) ->
+    match stop with
+    | None => False
+    | Some (e, None) => e = StopIteration /\ cs = chunks /\ i_chunks s' = [] /\
+                        w_finished w' = true /\ exists w0, w' = finish_all w0
+    | Some (e, Some c) => chunks = cs ++ c :: i_chunks s'
+    end).
+  { induction chunks as [|c r IH]; intros w s Hc w' s' tr cs stop; cbn [length]; rewrite run_iter_S.
+    - rewrite w_next_nil by auto. intros H; inversion H; subst. repeat split; auto. eauto.
+    - rewrite (w_next_cons _ _ c r) by auto. destruct (w_step w (InChunk c)) as [[w1 tr1] o] eqn:Hs.
+      pose proof (w_step_identity _ _ _ _ _ Hs) as Hid.
+      destruct o as [c'|e|].
+      + inversion Hid; subst c'.
+        match goal with |- context [Wrap.run_iter ?a1 ?a2 ?a3 ?a4 ?a5 ?a6 ?k ?a ?b] =>
+          destruct (Wrap.run_iter a1 a2 a3 a4 a5 a6 k a b) as [[[[w2 s2] tr2] cs2] stop2] eqn:Hr end.
+        intros H; inversion H; subst. apply IH in Hr; [|reflexivity].
+        destruct stop as [[e [c2|]]|]; [| |contradiction].
+        * cbn [app]. now rewrite Hr.
+        * destruct Hr as (H1 & H2 & H3 & H4 & H5). repeat split; auto. now rewrite H2.
+      + intros H; inversion H; subst. reflexivity.
+      + discriminate. }
+  intros w s. apply Hgen. reflexivity.
+Qed.
+
+(* with an expected format, iterating *)
+Theorem expected_abort_exact_iter w s n pre sl post :
+  w_expected w = Some n -> w_slots w = pre ++ sl :: post -> s_name sl = n -> s_err sl = false ->
+  nonexp (Some n) pre -> nonexp (Some n) post ->
+  forall w' s' tr delivered stop, run_iter (S (length (i_chunks s))) w s = (w', s', tr, delivered, stop) ->
+  let cs := i_chunks s in
+  match first_abort (s_insp sl) cs with
+  | Some (j, a) =>
+    delivered = firstn j cs /\ stop = Some (abort_exn a, Some (nth j cs [])) /\ i_chunks s' = skipn (S j) cs
+  | None => delivered = cs /\ stop = Some (StopIteration, None) /\ i_chunks s' = [] /\ w_finished w' = true
+  end.
+Proof.
+  intros He Hsl Hn Herr Hpre Hpost w' s' tr delivered stop Hrun cs.
+  destruct (run_iter_stop cs _ w s eq_refl (Nat.lt_succ_diag_r _) _ _ _ _ _ Hrun) as (un & Hstop).
+  pose proof (expected_abort_core n cs w pre sl post [InStop] He Hsl Hn Herr Hpre Hpost) as Hcore.
+  pose proof (reads_are_identity_iter _ _ _ _ _ _ _ _ Hrun) as Hid. fold cs in Hid.
+  pose proof (iteration_complete _ _ _ _ _ _ _ Hrun) as Hcompl.
+  destruct (first_abort (s_insp sl) cs) as [[j a]|] eqn:Hfa.
+  - destruct Hcore as (Hj & w2 & tr2 & Hr). rewrite Hstop in Hr. inversion Hr; subst. repeat split.
+    assert (Hsk : skipn j cs = nth j cs [] :: skipn (S j) cs).
+    { clear - Hj. revert j Hj. induction cs as [|c cs IH]; intros j Hj; [cbn in Hj; lia|].
+      destruct j; [reflexivity|]. cbn [skipn nth]. apply IH. cbn in Hj. lia. }
+    apply (f_equal (skipn j)) in Hid. rewrite skipn_app in Hid.
+    rewrite (skipn_all2 (firstn j cs)) in Hid by (rewrite firstn_length; lia).
+    rewrite firstn_length, Nat.min_l, Nat.sub_diag in Hid by lia. cbn [app skipn] in Hid.
+    rewrite Hsk in Hid. inversion Hid. reflexivity.
+  - destruct Hcore as (w1 & tr1 & _ & _ & _ & _ & _ & _ & _ & _ & _ & _ & _ & Hr). cbn in Hr.
+    rewrite Hstop in Hr. inversion Hr; subst. rewrite app_nil_r in *. cbn in Hcompl.
+    destruct Hcompl as (_ & _ & H3 & H4 & _). repeat split; auto.
+Qed.
+
+(* no_read_after_abort: the run of a reader that stops at the first exception is a prefix
+   of the general run that ends with its first exception; nothing is asked of the source
+   (or of any inspector) afterwards *)
+Theorem no_read_after_abort : forall inps w w' tr cs stop unused,
+  w_run_stop w inps = (w', tr, cs, stop, unused) ->
+  exists used recs, inps = used ++ unused /\ w_run w used = (w', recs) /\ run_trace recs = tr /\
+    match stop with
+    | None => unused = [] /\ Forall (fun r => forall e, sr_out r <> OutExn e) recs
+    | Some (e, t) => exists recs0 r, recs = recs0 ++ [r] /\ sr_out r = OutExn e /\ taken (sr_in r) = t /\
+                       Forall (fun r => forall e, sr_out r <> OutExn e) recs0
+    end.
+Proof.
+  induction inps as [|inp rest IH]; intros w w' tr cs stop unused.
+  - cbn. intros H; inversion H; subst. exists [], []. repeat split; constructor.
+  - rewrite w_run_stop_cons. destruct (w_step w inp) as [[w1 tr1] o] eqn:Hs.
+    assert (Hgo : forall cs0, (let '(w2, tr2, cs2, stop2, unused2) := w_run_stop w1 rest in (w2, tr1 ++ tr2, cs0 cs2, stop2, unused2)) = (w', tr, cs, stop, unused) ->
+      (forall e, o <> OutExn e) ->
+      exists used recs, inp :: rest = used ++ unused /\ w_run w used = (w', recs) /\ run_trace recs = tr /\
+        match stop with
+        | None => unused = [] /\ Forall (fun r => forall e, sr_out r <> OutExn e) recs
+        | Some (e, t) => exists recs0 r, recs = recs0 ++ [r] /\ sr_out r = OutExn e /\ taken (sr_in r) = t /\
+                           Forall (fun r => forall e, sr_out r <> OutExn e) recs0
+        end).
+    { intros cs0. destruct (w_run_stop w1 rest) as [[[[w2 tr2] cs2] stop2] unused2] eqn:Hr.
+      intros H Ho; inversion H; subst.
+      destruct (IH _ _ _ _ _ _ Hr) as (used & recs & Hi & Hrun & Htr & Hst).
+      exists (inp :: used), ({| sr_in := inp; sr_tr := tr1; sr_out := o |} :: recs).
+      split; [cbn; now rewrite Hi|]. split; [rewrite w_run_cons, Hs, Hrun; reflexivity|].
+      split; [unfold run_trace in *; cbn; now rewrite Htr|].
+      destruct stop as [[e t]|].
+      - destruct Hst as (recs0 & r & H1 & H2 & H3 & H4).
+        exists ({| sr_in := inp; sr_tr := tr1; sr_out := o |} :: recs0), r. subst recs. repeat split; auto.
+      - destruct Hst as (H1 & H2). split; [assumption|]. constructor; auto. }
+    destruct o as [c|e|].
+    + intros H. apply (Hgo (fun x => c :: x) H). discriminate.
+    + intros H; inversion H; subst. exists [inp], [{| sr_in := inp; sr_tr := tr; sr_out := OutExn e |}].
+      repeat split.
+      * rewrite w_run_cons, Hs. reflexivity.
+      * unfold run_trace. cbn. now rewrite app_nil_r.
+      * exists [], {| sr_in := inp; sr_tr := tr; sr_out := OutExn e |}. repeat split. constructor.
+    + intros H. apply (Hgo (fun x => x) H). discriminate.
+Qed.
+
 End WrapProofs.
